@@ -25,7 +25,7 @@ PickSubset == i = Len(Cases) /\ M = <<>> /\ \E s \in {t \in OrderedSubsets : Dis
 Next == NextCase \/ PickSubset
 Spec == Init /\ [][Next]_<<i, M>>
 
-Nodes == << <<0, 1>>, <<1, 4>>, <<1, 3>>, <<1, 2>>, <<2, 3>>, <<3, 4>>, <<1, 1>> >>
+Nodes == << <<0, 1>>, <<1, 4>>, <<1, 3>>, <<1, 2>>, <<2, 3>>, <<3, 4>>, <<1, 1>>, <<3, 2>> >>   \* the last one lies OUTSIDE the unit disk: the radial polynomial is a polynomial there too
 Expected(c) ==
     CASE c.k = "index" -> [id |-> c.id, table |-> [j \in 1..JMax |-> <<Noll(j).n, Noll(j).m, NormSq(Noll(j).n, Noll(j).m)>>]]
       [] c.k = "radial" -> [id |-> c.id, nodes |-> Nodes,
